@@ -70,3 +70,6 @@ try_("verit_qnt_cnf", (Or(Not(Forall(xi, And(P(xi), q))), Forall(xi, P(xi))),), 
 try_("verit_qnt_cnf", (Or(Not(Not(ite)), Or(Not(p), Not(q))),), why="valid: ~ite gives (~p | ~q)")
 try_("verit_div_simplify", (Eq(Real(3) / Real(3), Real(1)),), why="valid")
 try_("verit_div_simplify", (Eq(xr / Real(1), xr),), why="valid")
+try_("verit_qnt_rm_unused", (Eq(Forall(xi, Forall(yi, P(xi))), Forall(xi, P(xi))),), why="valid: y unused")
+try_("verit_qnt_rm_unused", (Eq(Exists(xi, Exists(yi, P(yi))), Exists(yi, P(yi))),), why="valid: x unused")
+try_("verit_qnt_rm_unused", (Eq(Forall(xi, greater(IntType)(yi, Int(0))), greater(IntType)(yi, Int(0))),), why="valid: all removed")
